@@ -733,7 +733,7 @@ def run(ctx):
                     "sweep_name_exact", "sweep_name_below", "sweep_text_exact", "sweep_tokens_exact", "sweep_tokens_below", "sweep_tokens_exact+1",
                     "sweep_beyond_limit_rejected", "sweep_within_limit_accepted_identically", "mutator:rename-end-tag-same-length", "mutator:delete-end-tag",
                     "mutator:truncate+unterminated-construct", "mutator:nesting-bomb", "mutants_both_accept_and_agree", "big_inputs", "feature:ref", "feature:cdata",
-                    "feature:doctype", "feature:xmldecl")
+                    "feature:doctype", "feature:xmldecl", "option_flag_runs", "documents_with_bom", "doctype_with_delimiters_in_literals")
     if thorough:
         ctx.require_obs("fuzz_executions")
 
